@@ -238,11 +238,18 @@ def compare(a, b, ctx, where="", out=None, ignore_phantom=True, domain=None):
             ok, ivs = feasible(pa + pb, ctx, domain)
             if not ok:
                 continue
+            # eta: an opaque struct-valued application equals the struct of its projections
+            if isinstance(la, Struct) and isinstance(lb, RatFunc) and sym._single_atom(lb) is not None and sym._single_atom(lb).args:
+                lb = Struct(la.path, {k: (ctx.app("proj." + k, [lb]) if not _is_phantom(x) else x) for k, x in la.fields.items()})
+            elif isinstance(lb, Struct) and isinstance(la, RatFunc) and sym._single_atom(la) is not None and sym._single_atom(la).args:
+                la = Struct(lb.path, {k: (ctx.app("proj." + k, [la]) if not _is_phantom(x) else x) for k, x in lb.fields.items()})
             if isinstance(la, (Struct, Tuple, Array)) and type(la) is type(lb):
                 sub = compare(la, lb, ctx, where, [], domain=domain)
                 for mm in sub:
                     mm.path = pa + pb + mm.path
-                out.extend(sub)
+                    # the inner comparison did not know the outer path: drop mismatches on jointly infeasible paths
+                    if feasible(mm.path, ctx, domain)[0]:
+                        out.append(mm)
                 continue
             if not leaf_eq(la, lb):
                 # boundary point: both sides may legitimately differ in which piece owns a
